@@ -9,7 +9,7 @@ reg("C20",
     "TLC exhaustively checks the ThemeStack design (dictionary collapse at push == declarative lookup rule, pop restores, base never popped) "
     "and enumerates every push/pop/use_theme history of 3 (quick) / 4 (thorough) operations; each of those plus seeded random histories "
     "(<= 14 ops) is executed on a real Console and the get_style() table observed after every call is validated step by step by TLC "
-    "against the specification's actions (trace validation).  Bounded, not a proof about the Python code.",
+    "against the specification's actions (trace validation).  Bounded, not a proof about the Python code. The generator was audited against the quantifier and the public options of the anchored code; the dimensions it varies and the corners it deliberately keeps out are listed per property in DESIGN.md §13.",
     "Trusted: projection of a Style to an id by ==; use_theme blocks well nested; 4 names / 2 style ids / 9 themes.",
     "TLA+ spec ThemeStack.tla; TLC exhaustive model check + TLC-generated histories replayed on the real Console + TLC trace validation of recorded histories",
     "DESIGN.md §4 C20")
@@ -21,7 +21,7 @@ reg("C05",
     "(M2) every 2-call history plus simulated 7-call behaviours; these and seeded random histories (2..12 calls, arguments negative / at / "
     "beyond the ends, control, wide and zero-width characters, overlapping spans) are executed on a real rich.text.Text and TLC validates, "
     "call by call, len(), plain and the effective style of every surviving character against the model (trace validation).  Bounded; "
-    "conformance, not proof.",
+    "conformance, not proof. The generator was audited against the quantifier and the public options of the anchored code; the dimensions it varies and the corners it deliberately keeps out are listed per property in DESIGN.md §13.",
     "Trusted: projection by Text.render (style -> attribute/colour ids); argument widths from rich.cells (C13). Domain: non-negative counts/"
     "widths, sorted in-range divide offsets, non-self-overlapping separators; wrap() is C02; from_markup is C04.",
     "TLA+ spec TextOps.tla; TLC exhaustive check of the reference semantics' laws + TLC-generated (exhaustive and -simulate) call histories replayed on real Text objects + TLC trace validation of recorded histories",
@@ -60,7 +60,7 @@ reg("C17",
   "of the shipped code (stripnl, unguarded skip loop, remove_suffix before split) makes TLC exhibit a defect.  6 000 (quick) / 78 000 (thorough) real renders of Syntax "
   "(5 lexers incl. an unknown name, ranges inside/straddling/beyond, highlight_lines, word_wrap, code_width, indent guides, 4 themes, truecolor/plain, many widths) and of "
   "Traceback.from_exception over generated modules (leading blank lines, long files, first/last failing line, multi-frame, cross-module, chained, import-time) are projected to "
-  "(number, marker, text) rows and judged row by row by TLC against the property part.  Bounded sampling plus a bounded model, not a proof about the Python code.",
+  "(number, marker, text) rows and judged row by row by TLC against the property part.  Bounded sampling plus a bounded model, not a proof about the Python code. The generator was audited against the quantifier and the public options of the anchored code; the dimensions it varies and the corners it deliberately keeps out are listed per property in DESIGN.md §13.",
   "Trusted: lexical gutter/panel projection (drivers/c17.py:project_rows, printed_lines, project_traceback), width classification (syn_mode), traceback.walk_tb as ground truth. "
   "Texts compared modulo trailing spaces; cropped rows (word_wrap off, narrow width) only as prefixes; spaces at wrap breaks may be absorbed; indent-guide characters accepted only over leading blanks; "
   "line_range judged only with line numbers; no control characters other than newline and tab; marker position in Syntax (non-traceback) and traceback window shape are DRIFT-only.",
@@ -87,7 +87,7 @@ reg("C19",
     "of 0..3 events with flushes that everything consumed is shown exactly once, in order, with the terminal's pens.  Every TLC-enumerated chunking and seeded "
     "random streams cut at arbitrary character positions (inside escape sequences, empty writes, many newlines, ESC[m, 256/24-bit colours, markup-/emoji-like "
     "text) run on a real FileProxy + truecolor console; both the chunks and the console's output are tokenised lexically and TLC decodes both with Sgr.tla and "
-    "compares line by line, character by character, pen by pen (trace validation).  Part (a), decoder round trip, is judged by the same automaton (see C03).",
+    "compares line by line, character by character, pen by pen (trace validation).  Part (a), decoder round trip, is judged by the same automaton (see C03). The generator was audited against the quantifier and the public options of the anchored code; the dimensions it varies and the corners it deliberately keeps out are listed per property in DESIGN.md §13.",
     "Trusted: engine/sgrlex.py (lexical tokeniser). Console wide enough not to wrap; CR/BS/VT/FF excluded; flush of an escape-only pending fragment not judged.",
     "TLA+ specs FileProxy.tla + Sgr.tla; TLC model check over all chunkings + TLC-generated chunkings replayed on the real FileProxy + TLC trace validation (TLC decodes the input and the output stream)",
     "DESIGN.md §4 C19")
@@ -95,7 +95,7 @@ reg("C19",
 reg("C16",
     "Pretty.tla formalises the literal grammar Rich emits, a recursive-descent evaluator for it written in TLA+ (incl. Python's (x) vs (x,) rule) and the clauses EvalOK / CycleMarker / Abbrev / OneLineIfFits / ExpandedLayout, and transcribes traverse()/_Line.expand()/Node.render(). "
     "TLC model-checks that transcription as a work-list state machine over every abstract value of a bounded domain (containers of <=2-3 items nested 3 levels, atom cell widths 1-2, optional cycle marker) x widths x indent sizes x expand_all x max_length against all clauses: with the closing-separator rule as released in 9.10.0 TLC exhibits the lost 1-tuple comma, with the repaired rule every invariant holds. "
-    "The domain's values are instantiated and replayed on the real pretty_repr, together with a systematic family and seeded random values nested <= 6 (all nine container kinds, str/bytes/int/float/bool/None leaves, shared and cyclic references) x max_width 1..200 x indent_size x expand_all x max_length x max_string; every real output is tokenised and judged by TLC, which also reports whether the layout model reproduces it token for token (else DRIFT). Bounded conformance checking, not a proof about the Python code.",
+    "The domain's values are instantiated and replayed on the real pretty_repr, together with a systematic family and seeded random values nested <= 6 (all nine container kinds, str/bytes/int/float/bool/None leaves, shared and cyclic references) x max_width 1..200 x indent_size x expand_all x max_length x max_string; every real output is tokenised and judged by TLC, which also reports whether the layout model reproduces it token for token (else DRIFT). Bounded conformance checking, not a proof about the Python code. The generator was audited against the quantifier and the public options of the anchored code; the dimensions it varies and the corners it deliberately keeps out are listed per property in DESIGN.md §13.",
     "Trusted: stdlib tokenize + lexical projection (kind/atom id/gap, '-'NUMBER merged), leaf<->atom id by ast.literal_eval + type, cell width via the tree's cell_len, python object -> abstract value traversal. Assumptions: finite floats; `<class 'T'>` read as factory T; deque maxlen not compared; dict keys are leaves/tuples of leaves; OneLineIfFits only for pure list/tuple/dict/set/frozenset values without cycles/abbreviation/expand_all; abbreviation clauses judge the reported counts and prefix property, not whether Rich abbreviates. quick: M1 63k states, 14k real calls; thorough: M1 1.4M states, 127k real calls.",
     "TLA+ spec Pretty.tla (evaluator + layout relations + transcription of pretty.py); TLC exhaustive model check of the layout design; TLC-generated values replayed on the real code; TLC record validation of tokenised real outputs with delta-debugged witnesses",
     "DESIGN.md §4 C16")
@@ -107,7 +107,7 @@ reg("C04",
     "embedded.  Real rich.markup.render(emoji=False)/escape executions are then judged record by record by TLC against the spec: every "
     "TLC-generated token document of 3 (4) tokens + simulated ones, ALL raw strings of length <=5 (6) over the 12-symbol alphabet "
     "(render result, MarkupError clause, escape clause), the embedded-escape clause in 6 contexts for all strings <=3 (4), and 6k (60k) "
-    "random nested/overlapping documents with escaped leaves up to 200 chars.  Bounded conformance, not a proof of the Python code.",
+    "random nested/overlapping documents with escaped leaves up to 200 chars.  Bounded conformance, not a proof of the Python code. The generator was audited against the quantifier and the public options of the anchored code; the dimensions it varies and the corners it deliberately keeps out are listed per property in DESIGN.md §13.",
     "Trusted: Style->(fg,bg,bold,link,other) projection; per-character styles read from Text.render segments; the style language "
     "(Style.normalize / Console.get_style of the tree under test) is taken as given for tag names and styles; emoji=False; where the "
     "docs are silent on what a tag is ('[' inside a tag, candidate not closed on its line) a disagreement is DRIFT.  10-tag vocabulary.",
@@ -123,7 +123,7 @@ reg("C13",
     "1,114,112 code points. M3: cell_len/set_cell_size/chop_cells for all strings over 8/12 concrete mixed-width characters up to length 4 and random strings <= 80 x sizes 0..100; "
     "call histories on the real process-wide caches that exceed both 4096-entry capacities, interleave uncached > 64-char strings and re-measure evicted and resident keys in "
     "different orders; TLC-enumerated (M2) and random histories on a real LRUCache of capacity 1-4 replayed step by step; adjust_line_length / split_and_crop_lines / set_shape / "
-    "split_lines / simplify / get_shape records (exact length, characters+styles unchanged, pad style, newline placement). Bounded testing judged by a formal spec, not a proof about the Python code.",
+    "split_lines / simplify / get_shape records (exact length, characters+styles unchanged, pad style, newline placement). Bounded testing judged by a formal spec, not a proof about the Python code. The generator was audited against the quantifier and the public options of the anchored code; the dimensions it varies and the corners it deliberately keeps out are listed per property in DESIGN.md §13.",
     "Trusted: str<->code-point and Style->id (identity, then ==) projections, reading CELL_WIDTHS from the tree under test, VERDICT parsing. Width is DEFINED by the tree's table "
     "(a changed table is DRIFT, still judged). Where the statement is silent (style of the filler for a half-cut wide char, trailing empty line, set_shape with height < lines, control flags, "
     "maximal fill of chop/crop) every behaviour is allowed; differences from the transcription there are DRIFT only. Hangs inside Rich are observed through a CPU-time watchdog.",
@@ -131,13 +131,13 @@ reg("C13",
     "DESIGN.md §4 C13")
 
 reg("C06",
-    "TLC checks exhaustively, over all triples of a small style domain (2 tri-state attributes, 2/3 colours + unset, 2 links + none: 14M / 80M triples), that the abstract Add is associative, has Null as identity, is right-biased per field, that Combine is its fold, that the bit-mask design of __add__ refines it and that Str/Parse round-trip. A construction-routes machine (keywords, parse, normalize.parse, from_color, +, chain, combine, copy, update_link, without_color, str; depth 3) is model-checked for refinement and hash-key consistency of the derived-hash design (the stored-hash transcription of 9.10.0 is refuted by TLC). Every generated route (26k / 59k) is rebuilt with real constructors under bindings covering all 156 ordered pairs of the 13 real attributes, together with triples over the full 13-attribute domain and style definitions (all <=2 / <=3-word definitions over a 52-word vocabulary plus random longer ones). TLC judges each recorded execution (44k / 500k) for right bias, associativity, identity, parse = named style, str/normalize round trips and eq=>hash over all pairs of objects in a record. Bounded conformance, not a proof about the Python code.",
+    "TLC checks exhaustively, over all triples of a small style domain (2 tri-state attributes, 2/3 colours + unset, 2 links + none: 14M / 80M triples), that the abstract Add is associative, has Null as identity, is right-biased per field, that Combine is its fold, that the bit-mask design of __add__ refines it and that Str/Parse round-trip. A construction-routes machine (keywords, parse, normalize.parse, from_color, +, chain, combine, copy, update_link, without_color, str; depth 3) is model-checked for refinement and hash-key consistency of the derived-hash design (the stored-hash transcription of 9.10.0 is refuted by TLC). Every generated route (26k / 59k) is rebuilt with real constructors under bindings covering all 156 ordered pairs of the 13 real attributes, together with triples over the full 13-attribute domain and style definitions (all <=2 / <=3-word definitions over a 52-word vocabulary plus random longer ones). TLC judges each recorded execution (44k / 500k) for right bias, associativity, identity, parse = named style, str/normalize round trips and eq=>hash over all pairs of objects in a record. Bounded conformance, not a proof about the Python code. The generator was audited against the quantifier and the public options of the anchored code; the dimensions it varies and the corners it deliberately keeps out are listed per property in DESIGN.md §13.",
     "Trusted: the driver's lexer for definitions and str() output; projection via public getters (Color -> type/number/triplet + spelling class of its name); substitution of real attributes, colours and urls for the model's; ==/hash() booleans computed by Python. Links non-empty without whitespace; colours limited to default / table names / color(n) / #rrggbb / rgb() in canonical decimal form, and Color objects from parse, from_ansi, from_rgb, default. Values of copy / update_link / without_color / from_color, error cases, upper-case and redefining definitions are only pinned as DRIFT. lru caches are cleared per case.",
     "TLA+ specs Style.tla / MC_Style / Trace_Style; TLC exhaustive model check of the laws and of the constructor-routes machine, TLC-generated routes replayed on the real Style class, TLC batch validation of recorded executions",
     "DESIGN.md §4 C06")
 
 reg("C18",
-    "TLC judges the real Color.downgrade(system) (first and second call) and Color.get_ansi_codes(foreground=) point by point against Color.tla: result in the gamut of the target, default stays default, representable colours unchanged (standard index n may be re-tagged windows n), 16-colour targets pick an index of minimum distance under the exact integer radicand of palette.py (any minimiser accepted; sqrt shown order- and tie-preserving), greys to 256 land on {16,231} u 232..255, second conversion identical, SGR parameters 30-37/90-97, 40-47/100-107, 38;5;n/48;5;n, 38;2;r;g;b/48;2;r;g;b, 39/49 for sources and results. Quick: 62 415 stratified source colours. Thorough: all 16 777 216 RGB colours plus the 256 indexed colours and default x {standard, 256, truecolor, windows} x fg/bg (exhaustive enumeration with TLC as evaluator, not state exploration). M1: a transcription of the algorithm in integer/rational arithmetic is model-checked against the relation on a lattice (73 k states, every path of the algorithm covered, relation shown non-trivial).",
+    "TLC judges the real Color.downgrade(system) (first and second call) and Color.get_ansi_codes(foreground=) point by point against Color.tla: result in the gamut of the target, default stays default, representable colours unchanged (standard index n may be re-tagged windows n), 16-colour targets pick an index of minimum distance under the exact integer radicand of palette.py (any minimiser accepted; sqrt shown order- and tie-preserving), greys to 256 land on {16,231} u 232..255, second conversion identical, SGR parameters 30-37/90-97, 40-47/100-107, 38;5;n/48;5;n, 38;2;r;g;b/48;2;r;g;b, 39/49 for sources and results. Quick: 62 415 stratified source colours. Thorough: all 16 777 216 RGB colours plus the 256 indexed colours and default x {standard, 256, truecolor, windows} x fg/bg (exhaustive enumeration with TLC as evaluator, not state exploration). M1: a transcription of the algorithm in integer/rational arithmetic is model-checked against the relation on a lattice (73 k states, every path of the algorithm covered, relation shown non-trivial). The generator was audited against the quantifier and the public options of the anchored code; the dimensions it varies and the corners it deliberately keeps out are listed per property in DESIGN.md §13.",
     "Trusted: projection Color->(kind, number, r, g, b), decimal strings->ints, dictionary/delta-run grouping of equal observations and the `is` identity test (drivers/c18.py); palettes read from the tree under test. For the 256 target the statement only requires gamut and grey ramp: changes of the cube or threshold arithmetic that stay in gamut are reported as DRIFT against the transcription, not as violations. The 24 saturation ties and 5 grey-step rounding ties are left open in the transcription. Windows-typed and EIGHT_BIT-typed n<16 sources are outside the quantifier (gamut only). Cube sweep: 16-colour tie-break drift compared on 1 row in 8.",
     "TLA+ spec Color.tla; TLC exhaustive model check of the transcription (MC_Color) + TLC slice evaluation (Trace_Color) of recorded real executions over the whole finite input space",
     "DESIGN.md §4 C18")
@@ -149,7 +149,7 @@ reg("C03",
     "links, bell control segments) are printed on real consoles of every colour system x NO_COLOR x terminal x legacy-windows configuration, the SAME Style objects on up to 4 "
     "consoles in a row; the written characters are tokenised lexically and TLC interprets them with Sgr.tla and judges: visible characters, per-character attributes / "
     "foreground / background / link against what the style means (after the documented down-conversion), no leak past the end, no escape with colour disabled, no colour "
-    "parameter under NO_COLOR, no control code on a non-terminal.  Bounded sampling judged by a formal terminal model.",
+    "parameter under NO_COLOR, no control code on a non-terminal.  Bounded sampling judged by a formal terminal model. The generator was audited against the quantifier and the public options of the anchored code; the dimensions it varies and the corners it deliberately keeps out are listed per property in DESIGN.md §13.",
     "Trusted: engine/sgrlex.py; expected pens are read from the Style's public getters and Color.downgrade (the down-conversion itself is C18's subject). Console wide enough "
     "not to wrap.",
     "TLA+ spec Sgr.tla (independent terminal automaton) + MC_Sgr (encoder design vs automaton, exhaustive over a pen domain) + TLC validation of the tokenised output of real consoles (Trace_Sgr)",
@@ -163,7 +163,7 @@ reg("C15",
     "400 / 6 000 TLC-simulated 6 / 9-call histories and 1 200 / 20 000 seeded random histories (<= 30 calls; strings with < > & entities quotes, styled Text, links, wide "
     "characters, bare newlines, Control, spans, Panel, Table, print options, log, rule, line, bell, clear, show_cursor, control, captures nested <= 3, export/save text and HTML x "
     "clear x styles/inline; 4 colour systems x terminal x 5 widths) run on a real recording Console and on an identical console that never captures; every write and every "
-    "capture/export result is tokenised and TLC replays the history through the property part, naming the failing clause (trace validation). Bounded; conformance, not proof.",
+    "capture/export result is tokenised and TLC replays the history through the property part, naming the failing clause (trace validation). Bounded; conformance, not proof. The generator was audited against the quantifier and the public options of the anchored code; the dimensions it varies and the corners it deliberately keeps out are listed per property in DESIGN.md §13.",
     "Trusted: engine/ansilex.py (lexical ANSI tokeniser; html.parser for tag removal + entity decoding, <pre> only; chunk labels by literal match), the twin console as reference for "
     "'as it would have been written'. Printed text has no C0 controls but newline; markup/emoji/highlight off. Clauses 1-3 strict only on capture-free histories; after sequential "
     "captures either 'recorded' or 'not recorded' is accepted (drift); unjudged between a nested capture / clearing export inside a capture and the next clearing export. Colours compared "
@@ -172,13 +172,13 @@ reg("C15",
     "DESIGN.md §4 C15")
 
 reg("C01",
-    "Layout.tla formalises the structural minimum MinW of C01 over abstract renderable trees (13 built-in kinds + protocol-only renderables) and the quantifier (InScope); TLC (M1) exhaustively checks the laws of MinW/InScope and that the code's top-down budget arithmetic leaves every child its MinW at W=MinW, over all builder histories of <=3/5 (thorough 4/6) actions, and (M2) emits every <=2-action history with full option products plus simulated 9-action histories. These trees and seeded random trees (nesting <=4, every layout option of the quantifier, ASCII/CJK/emoji/combining/zero-width/newline/tab contents; quick 900 trees, thorough ~14 000) are built as real Rich objects and rendered with Console.render at every W in MinW-2..MinW+12 and a x1.5 ladder to 200; every sub-tree is rendered again stand-alone at the budgets its parent handed down. TLC computes MinW from the tree and judges Fits for every W >= MinW; rejections are delta-debugged with TLC judging every round. Bounded sampling judged by a formal spec, not a proof.",
+    "Layout.tla formalises the structural minimum MinW of C01 over abstract renderable trees (13 built-in kinds + protocol-only renderables) and the quantifier (InScope); TLC (M1) exhaustively checks the laws of MinW/InScope and that the code's top-down budget arithmetic leaves every child its MinW at W=MinW, over all builder histories of <=3/5 (thorough 4/6) actions, and (M2) emits every <=2-action history with full option products plus simulated 9-action histories. These trees and seeded random trees (nesting <=4, every layout option of the quantifier, ASCII/CJK/emoji/combining/zero-width/newline/tab contents; quick 900 trees, thorough ~14 000) are built as real Rich objects and rendered with Console.render at every W in MinW-2..MinW+12 and a x1.5 ladder to 200; every sub-tree is rendered again stand-alone at the budgets its parent handed down. TLC computes MinW from the tree and judges Fits for every W >= MinW; rejections are delta-debugged with TLC judging every round. Bounded sampling judged by a formal spec, not a proof. The generator was audited against the quantifier and the public options of the anchored code; the dimensions it varies and the corners it deliberately keeps out are listed per property in DESIGN.md §13.",
     "Trusted: segments->lines->cell_len of the tree under test (C13), character->(class,width) projection, tree->constructor calls. Conservative MinW choices C1-C8 in Layout.tla (titled rules +4, width options below the minimum / non-free tables / exposed ignore leaves are out of scope); a rejected record with a rejected sub-tree is attributed to the sub-tree; Console(color_system=None, utf-8).",
     "TLA+ spec Layout.tla; TLC exhaustive model check of the MinW/budget laws + TLC-generated builder histories instantiated as real renderables + TLC validation of recorded renders (trace validation), TLC-judged delta debugging",
     "DESIGN.md §4 C01")
 
 reg("C09",
-    "Same tree sources as C01 (Layout.tla, TLC-generated builder histories and seeded random trees incl. renderables without a measure method and __rich__ casts); every sub-tree is measured with Measurement.get at avail in {0..5, MinW-1..MinW+6, x1.6 ladder to 200, random points} and rendered with exactly the reported max and min; TLC judges 0<=min<=max<=avail, Fits at max/min when >=MinW, and for text leaves without tabs (quick ~2 800, thorough ~30 000) min = widest word and max = widest line computed by TLC from per-character classes/widths, and line count at max = source lines. Under-measurement by containers is outside the statement and not detected. Bounded.",
+    "Same tree sources as C01 (Layout.tla, TLC-generated builder histories and seeded random trees incl. renderables without a measure method and __rich__ casts); every sub-tree is measured with Measurement.get at avail in {0..5, MinW-1..MinW+6, x1.6 ladder to 200, random points} and rendered with exactly the reported max and min; TLC judges 0<=min<=max<=avail, Fits at max/min when >=MinW, and for text leaves without tabs (quick ~2 800, thorough ~30 000) min = widest word and max = widest line computed by TLC from per-character classes/widths, and line count at max = source lines. Under-measurement by containers is outside the statement and not detected. Bounded. The generator was audited against the quantifier and the public options of the anchored code; the dimensions it varies and the corners it deliberately keeps out are listed per property in DESIGN.md §13.",
     "Trusted as for C01; the minimum of a text without any word is not judged (statement silent); out-of-scope trees are judged on bounds and text clauses only.",
     "TLA+ spec Layout.tla; TLC-generated builder histories instantiated as real renderables + TLC validation of recorded measurements and renders, TLC-judged delta debugging",
     "DESIGN.md §4 C09")
@@ -193,7 +193,7 @@ reg("C08",
     "groups, nested frames, random layout trees; every rich.box, titles, width options, paddings, ascii-only / legacy-windows / colour on-off consoles) "
     "are rendered with Console.render at widths from the structural minimum up; the ConsoleOptions a frame hands to its child are observed and the child "
     "is rendered alone with them; TLC judges every record (M3, ~10 k quick / ~140 k thorough).  Corrupted copies of accepted records must be rejected in "
-    "every run.  Bounded random conformance, not a proof.",
+    "every run.  Bounded random conformance, not a proof. The generator was audited against the quantifier and the public options of the anchored code; the dimensions it varies and the corners it deliberately keeps out are listed per property in DESIGN.md §13.",
     "Trusted: segments -> lines -> code point*4 + rich.cells width (style ids by str(style)); the Console.render hook; runs of identifying characters for "
     "Columns; drivers' structural minimum (only picks widths / tells TLC where the domain starts); spec -> constructor calls.  Domain: W >= Layout!MinW, "
     "width options >= that minimum; frames whose child itself overflows are skipped (C01); titles without line breaks / markup.  Centred Align must use "
@@ -204,19 +204,19 @@ reg("C08",
     "DESIGN.md §4 C08")
 
 reg("C14",
-    "Parsers.tla states, per entry point, the documented outcome set (Allowed) and a character-level grammar predicting the outcome class (Color.parse: RE_COLOR + int()/range rules incl. Unicode decimal digits vs superscripts; Style.parse: fold over words incl. normal form; Console.get_style; markup: Markup.tla's tag lexer + closing-tag matching through Style.normalize). TLC model-checks the grammar's own sanity (Predicted within Allowed, layering of colour/style/get_style, normal form a fixed point, about 60 unit assumptions, every (entry, predicted class) reachable) and enumerates every token sequence over per-entry alphabets of 14-36 syntax-significant fragments up to length 4 (quick) / 5 (thorough), also inside 3-4 syntactic contexts. Each sequence (207k quick / 3.1M thorough) is fed to the real entry point (Color.parse, Style.parse, get_style with/without default, markup.render, Console.print with/without markup on two consoles, AnsiDecoder.decode, Text) and TLC judges the observed exception class: outside Allowed = violation, allowed but not predicted = drift. 2,500 / 40,000 seeded random Unicode strings (astral, controls, combining, bidi, digits of 15 scripts and No/Nl numerics, 4301-6000-character runs, 26 syntax templates) go to all 9 entry points (property part only). 410 / 7,150 trees of built-in renderables with valid options (layout_gen + option stress + boundary recipes) are rendered, printed and measured at 19 widths from 1 to 200; TLC requires outcome ok at every width >= 1. Bounded conformance testing judged by TLC, not a proof; 'every string' is approximated by the token bound plus sampling.",
+    "Parsers.tla states, per entry point, the documented outcome set (Allowed) and a character-level grammar predicting the outcome class (Color.parse: RE_COLOR + int()/range rules incl. Unicode decimal digits vs superscripts; Style.parse: fold over words incl. normal form; Console.get_style; markup: Markup.tla's tag lexer + closing-tag matching through Style.normalize). TLC model-checks the grammar's own sanity (Predicted within Allowed, layering of colour/style/get_style, normal form a fixed point, about 60 unit assumptions, every (entry, predicted class) reachable) and enumerates every token sequence over per-entry alphabets of 14-36 syntax-significant fragments up to length 4 (quick) / 5 (thorough), also inside 3-4 syntactic contexts. Each sequence (207k quick / 3.1M thorough) is fed to the real entry point (Color.parse, Style.parse, get_style with/without default, markup.render, Console.print with/without markup on two consoles, AnsiDecoder.decode, Text) and TLC judges the observed exception class: outside Allowed = violation, allowed but not predicted = drift. 2,500 / 40,000 seeded random Unicode strings (astral, controls, combining, bidi, digits of 15 scripts and No/Nl numerics, 4301-6000-character runs, 26 syntax templates) go to all 9 entry points (property part only). 410 / 7,150 trees of built-in renderables with valid options (layout_gen + option stress + boundary recipes) are rendered, printed and measured at 19 widths from 1 to 200; TLC requires outcome ok at every width >= 1. Bounded conformance testing judged by TLC, not a proof; 'every string' is approximated by the token bound plus sampling. The generator was audited against the quantifier and the public options of the anchored code; the dimensions it varies and the corners it deliberately keeps out are listed per property in DESIGN.md §13.",
     "Trusted: drivers/c14.py:describe (exception class name, isinstance facts for the four documented classes, raising frame), layout_gen.build. Assumptions: StringIO consoles (stream encoding errors outside), surrogate-free strings <= ~6000 characters, trees of nesting <= 4 (RecursionError/MemoryError from absurd sizes outside), 60 s / 120 s call deadline recorded as NoTermination; excluded options: Rule(characters of zero width) (documented ValueError), non-positive widths/paddings, Bar begin/end outside 0..size; layout_gen's user-defined wrapper kinds unwrapped. Name tables (ANSI_COLOR_NAMES, default theme) read from the tree under test.",
     "TLA+ spec Parsers.tla (+ Markup.tla lexer); TLC exhaustive enumeration of token sequences with grammar sanity invariants and per-class action coverage (M1/M2); every enumerated input replayed on the real parsers; TLC record validation of outcome classes with drift channel (M3); random Unicode and random renderable trees judged by TLC with batched delta-debugged witnesses",
     "DESIGN.md §4 C14")
 
 reg("C02",
-    "Wrap.tla formalises WrapOK(input, lines) on sequences of styled characters [code, width, id, effective style]: (a) with fold the non-whitespace characters of the output are exactly those of the input, in order; (b) fold/crop/ellipsis lines fit the width; (c) every output character that is an input character keeps its effective style; (d) a word lies on two lines only if indentation + word is wider than the width. RefWrap transcribes Text.wrap (split, expand_tabs, divide_line + chop_cells, divide, rstrip_end, Lines.justify, truncate). TLC (M1) checks WrapOK(I, RefWrap(I)) for every string over {narrow, wide, zero-width, space, tab, newline} of up to 5 (quick) / 6 (thorough) characters x widths 2..6 x 5 justify x 4 overflow x no_wrap (tab sizes 2/4 and soundness of the character identification one length shorter) and must reject four wrong designs (chop loses a character, no final truncate, style slips over a break, word broken though it fits). (M2) every enumerated class string is made concrete with distinct code points from pools starting at the edges of the tree's width table and run through the real Text.wrap: 73 000 / 544 000 enumerated calls plus 2 500 / 25 000 random texts of up to 200 characters with a base style and up to 14 overlapping / nested / duplicate / empty spans at widths 2..200; (M3) TLC computes the effective input styles from base + spans (TextOps semantics), identifies the output characters by code point and judges WrapOK clause by clause; a difference from RefWrap alone is DRIFT. Bounded; conformance, not proof.",
+    "Wrap.tla formalises WrapOK(input, lines) on sequences of styled characters [code, width, id, effective style]: (a) with fold the non-whitespace characters of the output are exactly those of the input, in order; (b) fold/crop/ellipsis lines fit the width; (c) every output character that is an input character keeps its effective style; (d) a word lies on two lines only if indentation + word is wider than the width. RefWrap transcribes Text.wrap (split, expand_tabs, divide_line + chop_cells, divide, rstrip_end, Lines.justify, truncate). TLC (M1) checks WrapOK(I, RefWrap(I)) for every string over {narrow, wide, zero-width, space, tab, newline} of up to 5 (quick) / 6 (thorough) characters x widths 2..6 x 5 justify x 4 overflow x no_wrap (tab sizes 2/4 and soundness of the character identification one length shorter) and must reject four wrong designs (chop loses a character, no final truncate, style slips over a break, word broken though it fits). (M2) every enumerated class string is made concrete with distinct code points from pools starting at the edges of the tree's width table and run through the real Text.wrap: 73 000 / 544 000 enumerated calls plus 2 500 / 25 000 random texts of up to 200 characters with a base style and up to 14 overlapping / nested / duplicate / empty spans at widths 2..200; (M3) TLC computes the effective input styles from base + spans (TextOps semantics), identifies the output characters by code point and judges WrapOK clause by clause; a difference from RefWrap alone is DRIFT. Bounded; conformance, not proof. The generator was audited against the quantifier and the public options of the anchored code; the dimensions it varies and the corners it deliberately keeps out are listed per property in DESIGN.md §13.",
     "Trusted: per-character style read back with Text.render (c05.observe), character widths from rich.cells (C13), class pools chosen with the tree's own width function. Whitespace = space/tab/newline; (a), (b) demanded only when wrapping happens (no_wrap false, overflow != ignore); spaces identified only in interior runs (justify != full) and leading runs (default/left) - padding, full-justify gaps and tab fill are only compared with RefWrap (drift); with repeated code points and dropped characters (c) degrades to 'style of a namesake' and (d) skips the word. Not reached: texts > 200 characters, tab sizes other than 2/4/8, other Unicode spaces, negative span offsets.",
     "TLA+ spec Wrap.tla (acceptance relation + transcription of Text.wrap); TLC exhaustive model check of the design against the relation with wrong-design vacuity guards + TLC-enumerated inputs replayed on the real Text.wrap + TLC validation of the recorded outputs (trace validation; drift against the transcription)",
     "DESIGN.md §4 C02")
 
 reg("C07",
-    "Ratio.tla transcribes ratio_distribute / ratio_reduce / Table._collapse_widths in exact integer arithmetic; TLC (M1) checks the promised properties of the transcription on every instance of a grid (totals 0..14, up to 3 (quick) / 4 (thorough) slots) and every instance is also run through the real functions and compared by TLC (drift vs broken promise). Table.tla defines the structural minimum and the clauses Rect / ExpandExact / RowOrder / CellsInColumn over a lexically projected render; MC_Table shows an ideal render of every small recipe is accepted and 8 classic corruptions rejected, and emits random builder histories; those plus seeded random recipes (1..6 columns, 0..8 rows, all options of the quantifier, wide / zero-width / multi-line / nested cells) are built as real rich.table.Table objects, rendered at 5..7 widths from the structural minimum to 200 and judged by TLC (Trace_Table). TableSolver.tla transcribes Table._calculate_column_widths as a whole on top of Ratio.tla; MC_TableSolver (unit-increment states, BFS depth = instance size) exhibits both open findings as smallest counter-examples of the design as it is, model-checks a repaired design (one raise + recollapse step before return) for fits/fed/exact, conservativeness and by ablation; every emitted instance (<=3 columns, content 1..2/<=6, paddings incl. pad_edge/collapse_padding, ratios, min_width; thorough also width/max_width/no_wrap/Table.min_width) is run through the real method at 5..7 widths from the structural minimum and compared by TLC (Trace_TableSolver: same/repaired/patched/DRIFT, never a violation). Bounded sampling plus conformance, not a proof; only the first failing clause per record is reported.",
+    "Ratio.tla transcribes ratio_distribute / ratio_reduce / Table._collapse_widths in exact integer arithmetic; TLC (M1) checks the promised properties of the transcription on every instance of a grid (totals 0..14, up to 3 (quick) / 4 (thorough) slots) and every instance is also run through the real functions and compared by TLC (drift vs broken promise). Table.tla defines the structural minimum and the clauses Rect / ExpandExact / RowOrder / CellsInColumn over a lexically projected render; MC_Table shows an ideal render of every small recipe is accepted and 8 classic corruptions rejected, and emits random builder histories; those plus seeded random recipes (1..6 columns, 0..8 rows, all options of the quantifier, wide / zero-width / multi-line / nested cells) are built as real rich.table.Table objects, rendered at 5..7 widths from the structural minimum to 200 and judged by TLC (Trace_Table). TableSolver.tla transcribes Table._calculate_column_widths as a whole on top of Ratio.tla; MC_TableSolver (unit-increment states, BFS depth = instance size) exhibits both open findings as smallest counter-examples of the design as it is, model-checks a repaired design (one raise + recollapse step before return) for fits/fed/exact, conservativeness and by ablation; every emitted instance (<=3 columns, content 1..2/<=6, paddings incl. pad_edge/collapse_padding, ratios, min_width; thorough also width/max_width/no_wrap/Table.min_width) is run through the real method at 5..7 widths from the structural minimum and compared by TLC (Trace_TableSolver: same/repaired/patched/DRIFT, never a violation). Bounded sampling plus conformance, not a proof; only the first failing clause per record is reported. The generator was audited against the quantifier and the public options of the anchored code; the dimensions it varies and the corners it deliberately keeps out are listed per property in DESIGN.md §13.",
     "Trusted: drivers/c07.py project/build (characters attributed by per-cell alphabets, blanks and borders by colour tags; widths from rich.cells, C13). Title/caption are not body; Table.width exactness and padding sides are DRIFT only; no_wrap columns with nested renderables, ratio=0 and width caps below the content minimum are outside. Open findings: solver not minimum-aware; min_width re-imposed after collapse (a ~30-line repair is model-checked and kept under proposed_repairs/, not applied: not a minimal change; an empty no_wrap column in an expanding table rendering one cell too wide is masked by the min_width finding).",
     "TLA+ specs Ratio.tla / Table.tla; TLC exhaustive model check of the arithmetic with one real call per model state; TLC check of the acceptance relation against ideal and corrupted renders; TLC-generated (-simulate) builder histories and seeded random recipes rendered by the real Table; TLC batch validation of projected renders; delta-minimisation where each round is one TLC batch",
     "DESIGN.md §4 C07")
